@@ -25,10 +25,14 @@ def gen_demux_case(ctx):
     same = len(names) > 1 and rng.random() < 0.2
     seqs1 = [seqs[0] if (same and i == 1) else seqs[i] for i in range(3)]
     fl = rng.choice(["-a", "-g"])
+    # paired {name} runs with adapters for R2 only: the file is named after the last match *on R1* - there is none, so every pair is 'unknown'
+    r2_only = paired and not comb and rng.random() < 0.15
+    if r2_only:
+        names = []
     for i, n in enumerate(names):
         argv += [fl if same else rng.choice(["-a", "-g"]), f"{n}={seqs1[i]}"]
     names2 = []
-    if paired and (comb or rng.random() < 0.5):
+    if paired and (comb or r2_only or rng.random() < 0.5):
         names2 = ["b0", "b1"][: rng.randint(1, 2)]
         same2 = len(names2) > 1 and rng.random() < 0.2
         fl2 = rng.choice(["-A", "-G"])
